@@ -85,6 +85,7 @@ INT_RANGES = {'i8': (-2**7, 2**7-1), 'i16': (-2**15, 2**15-1), 'i32': (-2**31, 2
               'u8': (0, 2**8-1), 'u16': (0, 2**16-1), 'u32': (0, 2**32-1), 'u64': (0, 2**64-1), 'u128': (0, 2**128-1), 'usize': (0, 2**64-1)}
 
 def deep_copy_val(v):
+    if isinstance(v, Agg) and v.ty == 'Arc': return v
     if isinstance(v, Agg): return Agg(v.ty, v.variant, [Cell(deep_copy_val(c.v)) for c in v.fields], v.names)
     if isinstance(v, list): return [Cell(deep_copy_val(c.v)) for c in v]
     return v
@@ -125,7 +126,7 @@ class Interp:
                 for k in range(1, len(segs)): self.callmap.setdefault('::'.join(segs[k:]), name)
             m = re.search(r'<impl at ([^>]+?):(\d+):(\d+): \d+:\d+>', name)
             if m:
-                hdr = impl_header(m.group(1), int(m.group(2)))
+                hdr = impl_header(m.group(1), int(m.group(2)), int(m.group(3)))
                 if hdr:
                     trait, ty = hdr
                     prefix = name[:m.start()]; rest = name[m.end():]
@@ -222,6 +223,13 @@ class Interp:
     trace = False; depth = 0
     def call_fn(self, name, args):
         fn = self.fns[name]
+        saved_crate = getattr(self, 'cur_crate', ''); self.cur_crate = 'vstd' if name.startswith('vstd::') else 'nsym'
+        try:
+            return self.call_fn_inner(fn, name, args)
+        finally:
+            self.cur_crate = saved_crate
+
+    def call_fn_inner(self, fn, name, args):
         fr = Frame(fn, args)
         bb = 0
         while True:
@@ -244,7 +252,7 @@ class Interp:
                 v = self.operand(fr, t[1])
                 bb = self.switch(v, t[2], t[3])
             elif k == 'drop':
-                bb = t[2]   # spike: drops ignored
+                self.drop_value(self.place_cell(fr, t[1]).v); bb = t[2]
             elif k == 'assert':
                 c = self.operand(fr, t[1])
                 ok = self.branch(c if t[2] else self.bnot(c))
@@ -265,6 +273,13 @@ class Interp:
                 bb = t[4]
             elif k == 'unreachable': raise Unsupported("reached unreachable in " + name)
             else: raise Unsupported("term " + str(t))
+
+    def drop_value(self, v):
+        if isinstance(v, Agg):
+            if v.ty in ('Arc', 'Vec'): return   # spike: shared / element drops ignored
+            d = self.resolve("<%s as Drop>::drop" % v.ty)
+            if d is not None: self.call_fn(d, [Ref(Cell(v))])
+            for c in v.fields: self.drop_value(c.v)
 
     def get_block(self, fn, bb):
         key = (fn.name, bb)
@@ -333,6 +348,14 @@ class Interp:
         if s == 'false': return False
         if s == '()': return UNIT
         if re.fullmatch(r'\{alloc\d+: &[A-Z_0-9]+\}', s): return UNIT
+        m = re.fullmatch(r'\{(alloc\d+): \*(?:mut|const) .*\}', s)
+        if m:
+            name = self.alloc_static[(self.cur_crate, m.group(1))]
+            key = ('static', name)
+            if key not in self.pathcache:
+                self.pathcache[key] = Cell(None)
+                self.pathcache[key].v = self.call_fn(name, [])
+            return Ref(self.pathcache[key])
         if s.startswith('ZeroSized: {closure@'): return Closure(s[len('ZeroSized: '):], [])
         m = re.fullmatch(r'(-?\d+)_([iu](?:\d+|size))', s)
         if m: return int(m.group(1))
@@ -483,7 +506,7 @@ def last_seg_keep_generics(t):
 
 _SRC_CACHE = {}
 SRC_ROOTS = []
-def impl_header(path, line):
+def impl_header(path, line, col=1):
     import os
     for root in SRC_ROOTS:
         fp = os.path.join(root, path)
@@ -491,9 +514,15 @@ def impl_header(path, line):
             if fp not in _SRC_CACHE: _SRC_CACHE[fp] = open(fp).read().split('\n')
             ln = _SRC_CACHE[fp][line - 1]
             if ln.strip().startswith('#[derive'):
-                return None
-            m = re.match(r'\s*(?:unsafe )?impl(?:<[^>]*>)?\s+(.+?)\s+for\s+(.+?)\s*(?:where.*)?\{?\s*$', ln)
+                mt = re.match(r'\w+', ln[col-1:])
+                k = line
+                while k < len(_SRC_CACHE[fp]) and not re.match(r'\s*(pub(\([a-z]+\))? )?(struct|enum) (\w+)', _SRC_CACHE[fp][k]): k += 1
+                if k >= len(_SRC_CACHE[fp]): return None
+                mty = re.match(r'\s*(pub(\([a-z]+\))? )?(struct|enum) (\w+)', _SRC_CACHE[fp][k])
+                return (mt.group(0), mty.group(4))
+            ln = ln.split('{')[0]
+            m = re.match(r'\s*(?:unsafe )?impl(?:<[^>]*>)?\s+(.+?)\s+for\s+(.+?)\s*(?:where.*)?$', ln)
             if m: return (last_seg_keep_generics(m.group(1)), m.group(2))
-            m = re.match(r'\s*impl(?:<[^>]*>)?\s+(.+?)\s*(?:where.*)?\{?\s*$', ln)
+            m = re.match(r'\s*impl(?:<[^>]*>)?\s+(.+?)\s*(?:where.*)?$', ln)
             if m: return (None, m.group(1))
     return None
